@@ -19,7 +19,9 @@ func Map(s string, mapType reflect.Type) (reflect.Value, error) {
 				return fmt.Errorf("Error casting map key")
 			}
 
-			val := m.MapIndex(newKeyCast.Elem())
+			// convert so user-defined named key/value types are accepted
+			newKey := newKeyCast.Elem().Convert(keyType)
+			val := m.MapIndex(newKey)
 			if val.IsValid() {
 				return fmt.Errorf("duplicate key %q, already has value %q", newKeyCast.Elem(), val)
 			}
@@ -29,7 +31,7 @@ func Map(s string, mapType reflect.Type) (reflect.Value, error) {
 				return fmt.Errorf("Error casting map val")
 			}
 
-			m.SetMapIndex(newKeyCast.Elem(), newValCast.Elem())
+			m.SetMapIndex(newKey, newValCast.Elem().Convert(valType))
 
 			return nil
 		})
